@@ -19,7 +19,7 @@ import (
 
 var detMsts = []string{"m0", "m1"}
 
-const detSeriesPerMst, detTimes = 3, 10
+const detSeriesPerMst, detTimes = 3, 80
 
 func mstOfSeries(s int) string { return detMsts[s/detSeriesPerMst] }
 
@@ -331,7 +331,7 @@ func (d *detRun) genBatch(hiWater *int) []engx.Row {
 		s := d.r.Intn(detSeriesPerMst * len(detMsts))
 		row := engx.Row{Mst: mstOfSeries(s), Series: s, Fields: map[string]string{}}
 		if d.r.Chance(40) {
-			row.T = d.r.Intn(detTimes)
+			row.T = d.r.Intn(*hiWater + 2)
 		} else {
 			row.T = *hiWater + d.r.Intn(2)
 			if row.T >= detTimes {
@@ -587,7 +587,9 @@ func runDetHistory(c *hx.Ctx, r *hx.Rng, idx int) error {
 	if err != nil {
 		return err
 	}
-	sh.DisableBackground()
+	// (not DisableBackground: DisableCompAndMerge closes the table store's task scheduler for
+	// good, after which level and full compaction silently do nothing)
+	sh.DetachFromCompactor()
 	d := &detRun{c: c, r: r, idx: idx, sh: sh, p: p, root: root, spec: lww{}, pendingRows: map[string]bool{}, trace: c.Arg("trace", "") != ""}
 	d.prev = engine.VerifProtocolState{Flushed: map[string]bool{}, Orders: map[string][]string{}, OutOfOrders: map[string][]string{}}
 	d.emit(fmt.Sprintf("open %d %s", idx, strings.Join(detMsts, ",")), "ok")
@@ -620,7 +622,7 @@ func runDetHistory(c *hx.Ctx, r *hx.Rng, idx int) error {
 			// several quick flushes of in-order rows (no pause points), so that there are enough
 			// files of one level for a level compaction
 			d.kinds.WriteString("B")
-			for k := 0; k < 4; k++ {
+			for k := 0; k < 9; k++ {
 				if hiWater < detTimes-1 {
 					hiWater++
 				}
